@@ -57,10 +57,12 @@ struct Sched {
 	bool fair_tail = false;                        // round robin instead of choices
 	int rr = 0;
 	unsigned run_length = 0;
+	bool at_rmw = false;              // while the chooser runs: the yielding thread stands right before a read-modify-write
 	uint64_t grace_progress = ~0ull; unsigned grace_rounds = 0; int grace_rr = 0;    // see pick_next_locked
 };
 inline Sched &S() { static Sched s; return s; }
 inline thread_local int tid = -1;
+inline thread_local bool tl_rmw_next = false;     // the calling thread's next operation is a read-modify-write (point_rmw)
 } // namespace dsched
 #include "vclock.hpp"
 namespace dsched {
@@ -114,7 +116,7 @@ inline void pick_next_locked(int me) {
 		for(int d = 1; d <= s.nthreads; d++) { int k = (s.rr + d) % s.nthreads; bool ok = false; for(int e : en) if(e == k) ok = true; if(ok) { next = k; break; } }
 		s.rr = next;
 	} else if(en.size() == 1) next = en[0];
-	else { s.trace_sizes.push_back((uint32_t)en.size()); next = en[s.choose(en.size()) % en.size()]; }
+	else { s.trace_sizes.push_back((uint32_t)en.size()); s.at_rmw = me >= 0 && en[0] == me && tl_rmw_next; next = en[s.choose(en.size()) % en.size()]; s.at_rmw = false; }
 	if(next != me) { s.switches++; s.run_length = 0; }
 	if(s.st[next] == St::spinning) { s.st[next] = St::runnable; s.after_spin[next] = true; }
 	s.current = next;
@@ -143,6 +145,10 @@ inline void point() {
 	yield_locked(lk, tid);
 	if(!recheck) s.op_pending[tid] = true;
 }
+
+// a point that precedes a read-modify-write or compare-exchange: schedule modes that hunt for check-then-act windows (a value loaded
+// earlier and about to be written back) prefer to run the other threads here
+inline void point_rmw() { tl_rmw_next = true; try { point(); } catch(...) { tl_rmw_next = false; throw; } tl_rmw_next = false; }
 
 // voluntary yield: another enabled thread runs if there is one (round robin), otherwise the caller continues
 inline void yield_now() {
@@ -273,14 +279,25 @@ inline Result run(std::vector<std::function<void()>> bodies, std::function<uint3
 // stretches of undisturbed execution are reached far more often that way than with a switch at every other point.
 template<typename TapeT>
 inline std::function<uint32_t(size_t)> make_chooser(TapeT &t, unsigned mode) {
-	return [&t, mode](size_t n) -> uint32_t {
+	unsigned sticky_left = 0;
+	return [&t, mode, sticky_left](size_t n) mutable -> uint32_t {
 		if(t.done()) return 0;
 		uint32_t x = t.next();
+		if(mode & 0x100) {
+			// window hunting: right before a read-modify-write the thread is usually pre-empted and the others run undisturbed for a while
+			if(n < 2) return 0;
+			if(sticky_left) { sticky_left--; return 0; }
+			if(S().at_rmw && (x % 4)) { sticky_left = 4 + (x / 4) % 24; return 1 + (x / 128) % (n - 1); }
+			return (x % 8) ? 0 : 1 + (x / 8) % (n - 1);
+		}
 		if(mode == 0 || mode == 4 || n < 2) return x % n;
 		unsigned period = mode == 2 ? 32 : 8;
 		return (x % period) ? 0 : 1 + (x / period) % (n - 1);
 	};
 }
+// the schedule mode of a case, from one tape element: low part 0..4 as before (shrunk tapes hold small values and keep their meaning),
+// and one quarter of the larger values select the window-hunting mode
+template<typename TapeT> inline unsigned pick_mode(TapeT &t) { uint32_t raw = t.next(); unsigned m = raw % 5; if((raw / 5) % 4 == 3) m |= 0x100; return m; }
 
 inline void begin_fair_tail() { auto &s = S(); Ignore ig; std::unique_lock<std::mutex> lk(s.bm); s.fair_tail = true; }
 
